@@ -1003,6 +1003,37 @@ func c03MetaKey(r *core.Run) {
 		}
 		return true
 	})
+	// (the miss branch may be a helper of the type that is handed the key: its parameters stand for the arguments)
+	for _, cs := range w.Calls(f) {
+		h := w.Info(cs.Static)
+		if h == nil || h.Pkg != f.Pkg || h == f || h.Decl.Body == nil || core.RecvNamed(h.Obj) != t {
+			continue
+		}
+		hinfo := h.Pkg.TypesInfo
+		ps := paramObjs(h)
+		subst := func(o string) string {
+			for i, p := range ps {
+				if i < len(cs.Call.Args) {
+					o = strings.ReplaceAll(o, "param:"+p.Name(), origin(f, cs.Call.Args[i], 3))
+				}
+			}
+			return o
+		}
+		ast.Inspect(h.Decl.Body, func(n ast.Node) bool {
+			switch x := n.(type) {
+			case *ast.IndexExpr:
+				if sel, ok := ast.Unparen(x.X).(*ast.SelectorExpr); ok && sel.Sel.Name == "cache" {
+					keys = append(keys, subst(origin(h, x.Index, 3)))
+				}
+			case *ast.CallExpr:
+				if g := core.Callee(hinfo, x); g != nil && g.Name() == "LoadOne" && len(x.Args) >= 3 {
+					loads = append(loads, subst(origin(h, x.Args[2], 3)))
+					loadPos = x.Pos()
+				}
+			}
+			return true
+		})
+	}
 	keys, loads = uniq(keys), uniq(loads)
 	r.Sites++
 	ok := len(keys) == 1 && len(loads) == 1 && keys[0] == loads[0] && (strings.Contains(keys[0], "strings.ToUpper(") || strings.Contains(keys[0], "strings.ToLower("))
@@ -1020,6 +1051,22 @@ func c03ImageValueChain(w *core.World) []string {
 		}
 		info := f.Pkg.TypesInfo
 		ast.Inspect(f.Decl.Body, func(n ast.Node) bool {
+			// (the value may be filled into a prepared column image: columns[i].Value = ..)
+			if as, isAs := n.(*ast.AssignStmt); isAs && len(as.Lhs) == len(as.Rhs) {
+				for i, l := range as.Lhs {
+					sel, isSel := ast.Unparen(l).(*ast.SelectorExpr)
+					if !isSel || sel.Sel.Name != "Value" {
+						continue
+					}
+					if t := info.TypeOf(sel.X); t == nil || !strings.HasSuffix(strings.TrimPrefix(t.String(), "*"), "types.ColumnImage") {
+						continue
+					}
+					if c := abstractChain(origin(f, as.Rhs[i], 6)); strings.Contains(c, "(") {
+						out = append(out, c)
+					}
+				}
+				return true
+			}
 			cl, ok := n.(*ast.CompositeLit)
 			if !ok {
 				return true
